@@ -114,7 +114,8 @@ static const hx_op *const tables[] = { ops_c14, ops_c16, ops_c15, ops_c03, ops_c
 /* HX_FILL=<0..255>: before every op the stack area the op functions are about to use is filled with that byte, so OUTPUT buffers (stack arrays of the op
    functions, never initialised by the harness) start from a chosen content instead of whatever the previous op left: "for all buffers" includes what an output
    buffer holds before the call (all-ones is the interesting content: non-canonical field / scalar encodings, maximal lengths, set top bits). */
-static int hx_fill = -1;
+static int hx_fill = -2;
+static void __attribute__((constructor)) hx_fill_init(void) { const char *e = getenv("HX_FILL"); hx_fill = e ? (atoi(e) & 255) : -2; }   /* read once before any thread exists (the lazy read inside hx_dispatch was a data race in the threaded harness) */
 static void __attribute__((noinline)) hx_stack_fill(int v) {
     volatile unsigned char a[1 << 17]; size_t i;
     for (i = 0; i < sizeof a; i++) a[i] = (unsigned char) v;
@@ -128,7 +129,6 @@ void hx_dispatch(char *line, FILE *o) {
         argv[argc++] = tok;
     }
     if (argc == 0) { fputs("empty\n", o); free(argv); return; }
-    if (hx_fill == -1) { const char *e = getenv("HX_FILL"); hx_fill = e ? (atoi(e) & 255) : -2; }
     if (hx_fill >= 0) hx_stack_fill(hx_fill);
     if (strcmp(argv[0], "rt.flags") == 0) {
         fprintf(o, "sse2=%d sse3=%d ssse3=%d sse41=%d avx=%d avx2=%d avx512f=%d pclmul=%d aesni=%d rdrand=%d gcm=%d\n",
